@@ -1439,3 +1439,21 @@ package hashgraph
 //@   ensures[cache-first] s.inmemStore.participantEventsCache.known(participant) && s.inmemStore.participantEventsCache.idx(participant).Oldest() <= index && index <= s.inmemStore.participantEventsCache.idx(participant).Last() ==> ret1 == nil && interface{}(ret0) == s.inmemStore.participantEventsCache.idx(participant).Items()[index-s.inmemStore.participantEventsCache.idx(participant).Oldest()]
 //@   ensures[evicted]     s.inmemStore.participantEventsCache.known(participant) && index < s.inmemStore.participantEventsCache.idx(participant).Oldest() ==> ret0 == DbPEItem(G_dbPE(s), participant, index) && ret1 == DbPEItemErr(G_dbPE(s), participant, index)
 //@   ensures[unknown]     !s.inmemStore.participantEventsCache.known(participant) ==> ret0 == DbPEItem(G_dbPE(s), participant, index) && ret1 == DbPEItemErr(G_dbPE(s), participant, index)
+
+// Constructors: a new store satisfies the coupling invariant (empty caches, empty view, counters at -1), so that
+// coupled() - the precondition of every store method above - is established, not only preserved.
+//@ func NewPeerSetCache() *PeerSetCache
+//@   modifies nothing
+//@   ensures[fresh] ret0 != nil && __fresh(ret0) && ret0.wf() && len(ret0.rounds) == 0 && ret0.repertoireByPubKey != nil && ret0.repertoireByID != nil && ret0.firstRounds != nil
+
+//@ func NewParticipantEventsCache(size int) *ParticipantEventsCache
+//@   requires size >= 2 && size < 4611686018427387904
+//@   modifies nothing
+//@   ensures[fresh] ret0 != nil && __fresh(ret0) && ret0.wf() && len(ret0.participants.Peers) == 0
+
+//@ func NewInmemStore(cacheSize int) *InmemStore
+//@   requires cacheSize >= 2 && cacheSize < 4611686018427387904
+//@   modifies nothing
+//@   ghostset G_lastBlock(ret0) := -1
+//@   ghostset G_psetOK(ret0) := false
+//@   ensures[coupled] ret0 != nil && __fresh(ret0) && ret0.coupled()
